@@ -6,6 +6,7 @@
 import EG.Lemmas.AdaptersCroppedIter
 import EG.Lemmas.TargetRectIndex
 namespace EG
+open Tgt
 
 theorem croppedRows_getElem? (cs : List Color) (W w : Nat) (hw : w ≤ W) :
     ∀ (h a j i : Nat), j < h → i < w →
